@@ -19,7 +19,7 @@ RULE = ("Histories over the state-changing API: force_constants= (full|compact, 
         "the cell object handed to the constructor is guarded; interleaved with queries (q-points with all "
         "outputs, mesh + thermal properties, random displacements) that populate caches; three small crystals; constructor "
         "variants (group_velocity_delta_q, is_symmetry). 'enum': ALL sequences of length <= 2 (quick) / <= 3 (thorough) over a "
-        "canonical 17-letter alphabet, for the three dynamical-matrix classes. Non-trivial: >= 2 state changes of different "
+        "canonical 21-letter alphabet, for the three dynamical-matrix classes. Non-trivial: >= 2 state changes of different "
         "kinds before the last query. Distinct by hash of the history.")
 ASSUMPTIONS = [
     "force_constants handed in as an OWNED float64 C-contiguous array is documented to be shared and modified in place by the "
@@ -56,6 +56,7 @@ class Hist:
         # model of what the caller has set (never read back from the object under test)
         self.model_masses = None  # None: the masses of the input cell
         self.model_nac = None
+        self.model_dataset = None  # the dataset last handed in as a whole (None: not tracked)
         # the cell object handed to the constructor belongs to the caller
         self.cell_snapshot = {a: np.array(getattr(self.cell, a), copy=True) for a in ("cell", "scaled_positions", "masses")}
         self.kinds = []
@@ -110,6 +111,7 @@ class Hist:
         elif op == "produce":
             fc, _ = dense_fc(ph.supercell, rng)
             ph.generate_displacements(distance=0.02)
+            self.model_dataset = None
             forces = []
             for d in ph.dataset["first_atoms"]:
                 u = np.zeros((n, 3))
@@ -126,6 +128,7 @@ class Hist:
             disps = rng.normal(size=(nd, n, 3)) * 0.01
             frc = -np.einsum("ijab,njb->nia", fc, disps)
             ds = {"displacements": disps, "forces": frc}
+            self.model_dataset = None
             self._guard("displacements handed in through dataset=", disps)
             self._guard("forces handed in through dataset=", frc)
             ph.dataset = ds
@@ -136,6 +139,27 @@ class Hist:
                     if "symfc" in str(e).lower() or "alm" in str(e).lower() or isinstance(e, (ImportError, ModuleNotFoundError)):
                         return "skipped"  # type-2 solver needs an optional package that is absent
                     raise
+        elif op == "dataset":
+            # the displacement-force dataset is replaced as a whole: type 1 or 2, with or without forces / energies
+            nd = int(step.get("n", 3))
+            with_f, with_e = bool(step.get("forces", True)), bool(step.get("energies", False))
+            if step.get("kind", "t2") == "t2":
+                ds = {"displacements": rng.normal(size=(nd, n, 3)) * 0.01}
+                if with_f:
+                    ds["forces"] = rng.normal(size=(nd, n, 3))
+                if with_e:
+                    ds["supercell_energies"] = rng.normal(size=nd)
+            else:
+                ds = {"natom": n, "first_atoms": []}
+                for k in range(nd):
+                    e = {"number": int(rng.integers(0, n)), "displacement": rng.normal(size=3) * 0.01}
+                    if with_f:
+                        e["forces"] = rng.normal(size=(n, 3))
+                    if with_e:
+                        e["supercell_energy"] = float(rng.normal())
+                    ds["first_atoms"].append(e)
+            self.model_dataset = copy.deepcopy(ds)  # BEFORE the hand-over
+            ph.dataset = ds
         elif op == "sym":
             ph.symmetrize_force_constants(level=step.get("level", 1), show_drift=False)
         elif op == "sym_sg":
@@ -187,6 +211,7 @@ class Hist:
                 if not np.array_equal(c.masses, m0):
                     raise AssertionError("setting masses on a copy() changed the masses of the original object's %s" % name)
             self.ph = ph.copy()
+            self.model_dataset = None  # documented: copy() keeps the constructor parameters only
             self.ph.force_constants = np.array(ph.force_constants, copy=True)
             if ph.nac_params is not None:
                 self.ph.nac_params = copy.deepcopy(ph.nac_params)
@@ -226,7 +251,39 @@ class Hist:
         u2u = {int(k): i for i, k in enumerate(ph.supercell.u2s_map)}
         return np.array([self.cell_snapshot["masses"][u2u[int(s2u[i])]] for i in ph.primitive.p2s_map], dtype=float)
 
+    def _check_dataset(self):
+        want, got = self.model_dataset, self.ph.dataset
+        if "first_atoms" in want:
+            if got is None or "first_atoms" not in got or len(got["first_atoms"]) != len(want["first_atoms"]) or got.get("natom") != want["natom"]:
+                return "the dataset reported is not the type-1 dataset last set"
+            for k, (a, b) in enumerate(zip(got["first_atoms"], want["first_atoms"])):
+                if set(a) != set(b):
+                    return "entry %d of the dataset has keys %s, the dataset last set has %s" % (k, sorted(a), sorted(b))
+                for key in b:
+                    if not np.array_equal(np.asarray(a[key]), np.asarray(b[key])):
+                        return "entry %d of the dataset differs from the dataset last set in %r" % (k, key)
+            wf = np.array([e["forces"] for e in want["first_atoms"]]) if "forces" in want["first_atoms"][0] else None
+            we = np.array([e["supercell_energy"] for e in want["first_atoms"]]) if "supercell_energy" in want["first_atoms"][0] else None
+        else:
+            if got is None or set(got) != set(want):
+                return "the dataset reported has keys %s, the dataset last set has %s" % (sorted(got) if got is not None else None, sorted(want))
+            for key in want:
+                if not np.array_equal(np.asarray(got[key]), want[key]):
+                    return "the dataset reported differs from the dataset last set in %r" % key
+            wf, we = want.get("forces"), want.get("supercell_energies")
+        for name, w, g in (("forces", wf, self.ph.forces), ("supercell_energies", we, self.ph.supercell_energies)):
+            if (w is None) != (g is None):
+                return "%s reported: %s; the dataset last set %s" % (name, "none" if g is None else "an array of shape %s" % (np.shape(g),),
+                                                                     "has none" if w is None else "has them")
+            if w is not None and not np.array_equal(np.asarray(g), w):
+                return "%s reported differ from those of the dataset last set" % name
+        return None
+
     def check(self):
+        if self.model_dataset is not None:
+            err = self._check_dataset()
+            if err:
+                return err
         want_m = self.model_masses if self.model_masses is not None else self._prim_masses0()
         if not np.array_equal(np.asarray(self.ph.masses, dtype=float), np.asarray(want_m, dtype=float)):
             return "masses reported by the object %s are not the masses last set %s" % (np.asarray(self.ph.masses).tolist(), np.asarray(want_m).tolist())
@@ -280,6 +337,8 @@ ALPHABET = [
     {"op": "nac", "method": "wang", "key": 9}, {"op": "nac", "method": "none"}, {"op": "masses", "key": 10}, {"op": "query_mesh", "ev": True, "gv": True},
     {"op": "masses", "key": 11, "how": "tiny"}, {"op": "copy"}, {"op": "query_dir", "dir": [0.3, -0.5, 0.8]},
     {"op": "nac", "method": "wang", "key": 12, "data": "drift"},
+    {"op": "dataset", "kind": "t2", "key": 13, "n": 3, "forces": True, "energies": True}, {"op": "dataset", "kind": "t2", "key": 14, "n": 3, "forces": False},
+    {"op": "dataset", "kind": "t1", "key": 15, "n": 3, "forces": True}, {"op": "dataset", "kind": "t1", "key": 16, "n": 3, "forces": False},
 ]
 
 
@@ -360,6 +419,10 @@ def machine_shard(args, stats):
         @rule(level=st.integers(1, 3))
         def sym(self, level):
             self._do({"op": "sym", "level": level})
+
+        @rule(kind=st.sampled_from(["t1", "t2"]), key=keys_, n=st.integers(1, 4), forces=st.booleans(), energies=st.booleans())
+        def dataset(self, kind, key, n, forces, energies):
+            self._do({"op": "dataset", "kind": kind, "key": key, "n": n, "forces": forces, "energies": energies})
 
         @rule()
         def sym_sg(self):
